@@ -12,6 +12,9 @@ namespace Nstd.Sync.Scen
 inductive SOp
   | lock | try_ (skip : Nat) | unlock | signal | wait | twait (ms : Nat) | trywait | set | reset
   | start (j : Nat) | join (j : Nat) | dtor (j : Nat)
+  /-- `Thread::start(obj, &X::f)` on Thread object j with the body of program k; the model only has an answer when the
+      object is attached (the call fails and changes nothing) -/
+  | xstart (j k : Nat)
   /-- delete the primitive (only generated where no correct implementation touches it afterwards) -/
   | destroy
 deriving DecidableEq, Repr
@@ -69,7 +72,7 @@ def primCall (p : PrimSt) (t : Tid) (op : SOp) : Option PrimSt :=
 /-- is the op part of the primitive's API (checked when the scenario is parsed) -/
 def opValid (prim : String) (op : SOp) : Bool :=
   match op with
-  | .start _ | .join _ | .dtor _ => true
+  | .start _ | .join _ | .dtor _ | .xstart _ _ => true
   | .destroy => prim == "sig" || prim == "mon"
   | .lock | .try_ _ | .unlock => prim == "mtx" || prim == "mon"
   | .signal | .trywait => prim == "sem"
@@ -175,6 +178,13 @@ def advance (fuel : Nat) (w : World) (t : Tid) (evs : List String) : Option (Wor
             advance fuel { w with thr := th, pos := w.pos.set! t (k + 1) } t
               (evs ++ [s!"{k}={valStr ((th.ret t).getD .unit)}"])
           else some ({ w with thr := th }, evs)
+      | some (.xstart j _) =>
+        -- only meaningful on an attached object: `start` returns false at once; otherwise the scenario is ill-formed
+        if w.thr.handle j then
+          match Thr.step w.thr t (.api (.call (.start j))) with
+          | none => none
+          | some th => advance fuel { w with thr := th, pos := w.pos.set! t (k + 1) } t (evs ++ [s!"{k}=0"])
+        else none
       | some (.dtor j) =>
         match Thr.step w.thr t (.api (.call (.dtor j))) with
         | none => none
